@@ -1,6 +1,6 @@
 CONSTANTS
   NA = 3
-  LockOf0 <- L123
+  LockOf0 <- L12
   MaxOps = 2
   MaxSec = 0
   Timeouts = TRUE
@@ -11,8 +11,8 @@ CONSTANTS
   UniqueVals = FALSE
   Ghost = FALSE
   Mut = "none"
-  MaxDie = 0
-  EdgeFile = "edges-GenFin3x123.ndjson"
+  MaxDie = 1
+  EdgeFile = "edges-GenDie3x12.ndjson"
 INIT Init
 NEXT Next
 CHECK_DEADLOCK FALSE
